@@ -119,22 +119,27 @@ taskreport {report_id} "{report_id}" {{
 }}
 """
 
+    # Read original file first: if it cannot be read, no temporary file has been created yet
+    with open(tjp_path) as f:
+        original_content = f.read()
+
     # Create temporary file with random suffix (safe for concurrent execution)
     temp_fd, temp_path = tempfile.mkstemp(suffix=".tjp", prefix="plan_auto_")
     temp_file = Path(temp_path)
 
-    # Read original file
-    with open(tjp_path) as f:
-        original_content = f.read()
-
     # Write combined content and close file descriptor
-    with os.fdopen(temp_fd, "w") as f:
-        # Include original file
-        f.write(f"# Original file: {tjp_path}\n")
-        f.write("# Auto-report added by plan CLI\n\n")
-        f.write(original_content)
-        f.write("\n\n")
-        f.write(auto_report)
+    try:
+        with os.fdopen(temp_fd, "w") as f:
+            # Include original file
+            f.write(f"# Original file: {tjp_path}\n")
+            f.write("# Auto-report added by plan CLI\n\n")
+            f.write(original_content)
+            f.write("\n\n")
+            f.write(auto_report)
+    except BaseException:
+        # The caller never learns the name of the file, so remove it here
+        temp_file.unlink(missing_ok=True)
+        raise
 
     return temp_file, report_id
 
